@@ -274,6 +274,8 @@ def run_job(job, scratch_root, keep=False):
     res["vacuity"] = vac
     if failed and lib_fail and all(v.startswith("DFCC library") for v in vac):
         vac = []  # a user-level failure explains the library failures behind it
+    if failed and vac and all(v.startswith("guard '") for v in vac) and any("undefined function should be unreachable" in f["description"] for f in failed):
+        vac = []  # the verified code calls a function that has neither a body nor a contract in this job: that obligation fails, and the call not returning explains the unreached guards
     if vac:
         res["status"] = "vacuous"
         res["note"] += " ".join(vac)
